@@ -44,7 +44,11 @@ func validSetup(r *RNG, cmd string) cmdSetup {
 		s.args = []string{"snps", "-r", "{dir}/r.fa", "-q", "{dir}/a.fa"}
 		s.fastas = []string{"r.fa", "a.fa"}
 	case "closest", "closest-n":
-		s.files["q.fa"], s.files["t.fa"] = renderFasta(names[:2], seqs[:2], lay), aln
+		nqr := 2
+		if r.Bool() { // a single query record (commands may take another path for it)
+			nqr = 1
+		}
+		s.files["q.fa"], s.files["t.fa"] = renderFasta(names[:nqr], seqs[:nqr], lay), aln
 		s.args = []string{"closest", "--query", "{dir}/q.fa", "--target", "{dir}/t.fa", "-t", "2"}
 		if cmd == "closest-n" {
 			s.args = append(s.args, "-n", "2")
@@ -55,7 +59,11 @@ func validSetup(r *RNG, cmd string) cmdSetup {
 		s.args = []string{"updown", "list", "-r", "{dir}/r.fa", "-q", "{dir}/a.fa"}
 		s.fastas = []string{"r.fa", "a.fa"}
 	case "topranking":
-		s.files["r.fa"], s.files["q.fa"], s.files["t.fa"] = refFa, renderFasta(names[:2], seqs[:2], lay), aln
+		nqr := 2
+		if r.Bool() {
+			nqr = 1
+		}
+		s.files["r.fa"], s.files["q.fa"], s.files["t.fa"] = refFa, renderFasta(names[:nqr], seqs[:nqr], lay), aln
 		s.args = []string{"updown", "topranking", "-r", "{dir}/r.fa", "-q", "{dir}/q.fa", "-t", "{dir}/t.fa", "--size-total", "4"}
 		s.fastas = []string{"r.fa", "q.fa", "t.fa"}
 	case "variants":
